@@ -65,6 +65,8 @@ def gen_spec(seed: int, idx: int, tier: str) -> tuple[dict, list[dict], random.R
         n = 100
     k_inputs = 1 if rng.random() < 0.35 else rng.randrange(1, min(4, n) + 1)
     inputs = [cliworld.make_input(rng, f"p{j}", p_bad=0.25) for j in range(k_inputs)]
+    for j, inp in enumerate(inputs):
+        cliworld.byte_variants(rng_for(PROP, seed, f"bytes-{idx}-{j}"), inp)
     spec = {"files": {}, "decoys": {}, "procs": [], "prop": PROP, "idx": idx}
     cliworld.place_inputs(rng, inputs, spec)
     cliworld.add_decoys(rng, spec, 0.5, [i["name"] for i in inputs])
